@@ -128,7 +128,8 @@ CHECKS = [mtl_check(1)]
 TRUSTED = ["autograd theory [T] as in C01; chain rule through the features: the row handed to the shared Jac is the gradient of "
            "loss_i w.r.t. the features, so the spec row is 'back-propagated through features' by definition",
            "summaries of Jac._differentiate, Aggregate._compute, Accumulate._compute, Diagonalize (proved in C15 / C06)"]
-ASSUMPTIONS = ["C02: BOUNDED in the number of tasks (t <= 2 quick, 3 thorough); precondition: features duplicate-free, non-empty, "
+ASSUMPTIONS = ["C02: inputs / parameters that are NON-LEAF tensors retaining grad are outside the discharged obligations: the trusted contract 'torch.autograd.grad writes no .grad field' is false for them (autograd's retain_grad hook fills their .grad during the sweep) - known finding C06.retained_input, reproduced by the bounded arm on every run",
+               "C02: BOUNDED in the number of tasks (t <= 2 quick, 3 thorough); precondition: features duplicate-free, non-empty, "
                "with at least one scalar; parameter groups duplicate-free, disjoint from features and shared parameters; all expect grad"]
 
 
